@@ -4,14 +4,24 @@ SPEC = {
     "pkg": "c20",
     "tests": [
         {"name": "TestGRPCJSON", "quick": 240, "thorough": 12000, "shards_quick": 8, "shards_thorough": 16, "timeout": 3000},
+        {"name": "TestGRPCScenario", "quick": 320, "thorough": 16000, "shards_quick": 8, "shards_thorough": 16, "timeout": 3000},
     ],
     "rule": ("rapid-generated grpc/json ammo over the example TargetService (Hello/Auth/List/Order): payload field subsets, unicode and "
              "template-looking strings, int64 as number (|v| <= 2^53) or as string (full range), camelCase or snake_case keys, unknown "
              "fields, ill-typed values, unknown methods; metadata maps (lower-case keys, printable values); handlers that stall beyond "
              "the timeout; timeout 150 ms - 1 s; shared-client on/off; 1-4 instances; pool built by config.DecodeAndValidate, real grpc "
              "gun (reflection + dynamic messages), real phout. Non-trivial = metadata beyond the entry marker, or an invalid entry mixed "
-             "with valid ones, or >= 2 instances; distinct = hash of the case."),
-    "floors": {"TestGRPCJSON/metadata": 0.5, "TestGRPCJSON/invalid_mixed_with_valid": 0.3, "TestGRPCJSON/stalled_call": 0.1,
+             "with valid ones, or >= 2 instances; distinct = hash of the case. "
+             "TestGRPCScenario: generated grpc/scenario descriptions (YAML): a csv users source handed out by a prepare preprocessor "
+             "(source.users[next]), a variables source, a leading Auth call and 1-3 List/Order calls with multiplicities 1-3; payload "
+             "templates from the Auth response of the same invocation (token, userId) and from sources; 0-4 metadata entries per call "
+             "whose values are literals or templates over the source, the row of this invocation or the captured token / userId; 1-10 "
+             "invocations by 1-4 instances. The recording server issues a unique token and user id per Auth call; calls are grouped "
+             "into invocations by that token. Non-trivial = a metadata value that differs per invocation and >= 2 invocations."),
+    "floors": {"TestGRPCScenario/metadata_per_invocation_value": 0.4, "TestGRPCScenario/metadata_from_earlier_response": 0.25,
+               "TestGRPCScenario/per_invocation_metadata_with_concurrent_instances": 0.2, "TestGRPCScenario/multiplicity_gt_1": 0.4,
+               "TestGRPCScenario/rows_wrap_around": 0.3,
+               "TestGRPCJSON/metadata": 0.5, "TestGRPCJSON/invalid_mixed_with_valid": 0.3, "TestGRPCJSON/stalled_call": 0.1,
                "TestGRPCJSON/shared_client": 0.3, "TestGRPCJSON/instances_ge_2": 0.4, "TestGRPCJSON/invalid_unknown_method": 0.2,
                "TestGRPCJSON/invalid_wrong_type": 0.2, "TestGRPCJSON/invalid_unknown_field": 0.2},
     "manifest": {
@@ -19,10 +29,13 @@ SPEC = {
         "text": ("Per valid entry the recording server must have received exactly one call of the named method whose message is "
                  "proto.Equal to protojson.Unmarshal(payload) into the generated type, with every metadata pair, carrying a deadline "
                  "<= the configured timeout; a stalled handler ends as a 504 sample by the timeout; invalid entries reach the server "
-                 "never, yield one non-200 sample and do not disturb the others."),
+                 "never, yield one non-200 sample and do not disturb the others. Scenario calls: every call of every "
+                 "invocation reaches the server with the method, the payload (token and user id captured from this invocation's Auth "
+                 "response, source values) and every metadata pair rendered for THIS invocation (reference rendering from what the "
+                 "server issued and the rows the harness wrote), the listed number of times; users[next] hands out rows round-robin; "
+                 "one sample per call tagged <scenario>.<call tag>."),
         "note": ("JSON numbers above 2^53 are only generated as strings (the ammo is decoded through float64 by design of JSON maps). "
-                 "Entries are matched to server calls by an x-entry metadata marker. The gRPC scenario-call clause is exercised in C15/C11 "
-                 "style checks once the scenario generator is wired in."),
+                 "Entries are matched to server calls by an x-entry metadata marker."),
     },
     "assumptions": ["proto3 JSON mapping as implemented by google.golang.org/protobuf/encoding/protojson is the reference interpretation of a payload"],
 }
